@@ -218,7 +218,8 @@ class CombTarget:
         self.obj = G.build(term)
         self.tok = G.term_tok(term)
         self.id = "comb:%s@%dx%d" % (G.term_repr(term), h, w)
-        self.wf = G.wf(term) and tupl_elems_single(term)
+        # re-encodability is judged exactly where theorem de_reencodable states it
+        self.wf = G.wf(term) and tupl_elems_single(term) and reenc_ok(term)
 
     def run(self, text):
         import cspuz.problem_serializer as ps
@@ -568,6 +569,64 @@ def tupl_elems_single(t):
         return all(tupl_elems_single(x) for x in t[1])
     if k in ("Q", "G", "V"):
         return tupl_elems_single(t[1])
+    return True
+
+
+def _is_int(v):
+    return isinstance(v, int) and not isinstance(v, bool)
+
+
+def leaf_dom(c, v):
+    """python twin of Codec/TotalReencModel.v leaf_dom: v is an item the leaf c serializes"""
+    k = c[0]
+    if k == "D":
+        return any(strict_eq(v, b) for b in c[1])
+    if k == "S":
+        return strict_eq(v, c[1])
+    if k == "I":
+        return _is_int(v) and v >= 0
+    if k == "H":
+        return _is_int(v) and 0 <= v <= 4095
+    if k == "P":
+        return _is_int(v) and 0 <= v <= c[2]
+    if k == "M":
+        return _is_int(v) and 0 <= v < c[1]
+    return False
+
+
+def pleaf(c):
+    return c[0] in ("D", "S", "I", "H", "P")
+
+
+def sp_cov(l, a):
+    return a[0] != "P" or a[3] <= 0 or any(leaf_dom(x, a[1]) for x in l)
+
+
+def sbase(c):
+    k = c[0]
+    if k == "O":
+        return all(pleaf(x) for x in c[1]) and all(sp_cov(c[1], x) for x in c[1])
+    if k == "M":
+        return c[2] != 0
+    return pleaf(c) and sp_cov([c], c)
+
+
+def reenc_ok(t):
+    """python twin of Codec/TotalReencModel.v reenc_ok: the side condition of theorem de_reencodable (Props/C17.v);
+    outside it the re-encodability clause is refuted (reenc_ok_needed) and is not judged"""
+    k = t[0]
+    if k == "O":
+        return all(pleaf(x) for x in t[1])
+    if k == "T":
+        return all(reenc_ok(x) for x in t[1])
+    if k == "Q":
+        return sbase(t[1]) and t[2] >= 0
+    if k == "G":
+        return sbase(t[1]) and (t[2] is None or (t[2][0] >= 0 and t[2][1] >= 0))
+    if k == "V":
+        return sbase(t[1])
+    if k == "C":
+        return False
     return True
 
 
